@@ -36,10 +36,7 @@ def withSearchPath (sp : String) (act : M α) : M α := do
   modify fun s => { s with searchPath := saved }
   pure r
 
-def schemaOf (full : String) : String :=
-  match full.splitOn "." with
-  | a :: _ :: _ => a
-  | _ => ""
+def schemaOf (full : String) : String := firstDotted full
 
 def baseName (full : String) : String := lastComponent full
 
@@ -88,7 +85,7 @@ def seqSet (full : String) (v : Int) (called : Bool) : M Unit := do
 /-- resolve the (possibly quoted, possibly unqualified) name given to nextval/setval -/
 def seqName (arg : String) : M String := do
   let n := unquoteQualified arg
-  if (n.splitOn ".").length ≥ 2 then pure n else qualify "" n
+  if !(firstDotted n).isEmpty then pure n else qualify "" n
 
 /-! ## advisory locks (documentation 13.3.5) -/
 
